@@ -219,7 +219,7 @@ def kernel_differential(rng, n):
         now = st + rng.randrange(-5, 2000) if st else rng.randrange(0, 10**6)
         t = rng.choice([1, 5, 100, 1999, rng.randrange(1, 3000)])
         cases.append((st, now, t))
-    d = os.path.join(WORK, 'c08k')
+    d = os.path.join(WORK, 'c08k.%d' % os.getpid())          # per process: quick and thorough may run at the same time
     os.makedirs(d, exist_ok=True)
     json.dump(cases, open(os.path.join(d, 'cases.json'), 'w'))
     env = dict(os.environ, PYTHONPATH=f"{REPO}:{os.path.join(VERIF, 'harness')}", PYTHONHASHSEED='0')
